@@ -253,6 +253,22 @@ type outcome struct {
 	haveSB   bool
 	hub      bool // path notifies the destination's hub on success
 	panicked bool
+	text     string // error text the caller was given (HTTP error body / errorText of the upload response)
+}
+
+// mentionsSizeLimit reports whether the rejection the caller saw names the blob-size limit.
+func (o outcome) mentionsSizeLimit() bool {
+	t := o.text
+	if o.err != nil {
+		t += " " + o.err.Error()
+	}
+	t = strings.ToLower(t)
+	for _, w := range []string{"over the limit", "too large", "too big", "blob size limit"} {
+		if strings.Contains(t, w) {
+			return true
+		}
+	}
+	return false
 }
 
 func (o outcome) String() string {
@@ -263,12 +279,17 @@ func (o outcome) String() string {
 		return fmt.Sprintf("accepted (HTTP %d)", o.status)
 	case o.accepted:
 		return "accepted"
+	case o.status != 0 && o.text != "":
+		return fmt.Sprintf("rejected (HTTP %d: %.120q)", o.status, o.text)
 	case o.status != 0:
 		return fmt.Sprintf("rejected (HTTP %d)", o.status)
 	case o.terr != nil:
 		return "rejected (transport error: " + o.terr.Error() + ")"
 	case o.err != nil:
 		return "rejected (" + o.err.Error() + ")"
+	}
+	if o.text != "" {
+		return fmt.Sprintf("rejected (not listed as received; errorText %.160q)", o.text)
 	}
 	return "rejected (not listed as received)"
 }
@@ -439,7 +460,12 @@ func (s *session) judge(of *offer, out outcome, hookBefore int, a *attemptRec) {
 		if of.Boundary != "" {
 			r.Note("boundary_outcomes", of.Boundary+"/rejected")
 		}
-		if of.Want == wantAccept {
+		if of.Want == wantAccept && len(of.Data) >= maxBlob-64<<10 && len(of.Data) <= maxBlob && hasKindDeep(s.spec, "encrypt") && out.mentionsSizeLimit() {
+			// the encrypting store adds the age overhead to what it writes below: the ciphertext of a
+			// valid blob this close to the cap is over the cap and the write below is refused
+			r.Note("observations", "valid-rejected-ciphertext-over-cap")
+			s.viol("rejected-valid-ciphertext-over-cap/"+s.site(), "valid offer %s (%d bytes, within 64 KiB of the 16 MiB cap) was rejected by a store containing encrypt: %s", of.RefStr, len(of.Data), out)
+		} else if of.Want == wantAccept {
 			s.viol("rejected-valid/"+s.site(), "valid offer %s (%d bytes, %s, reader=%s) was rejected: %s", of.RefStr, len(of.Data), of.Mut, of.Reader, out)
 		}
 		r.Eval(1)
@@ -488,6 +514,8 @@ func (s *session) rejectClass(of *offer, out outcome) {
 		switch {
 		case errors.Is(out.err, blobserver.ErrCorruptBlob):
 			r.Note("reject_classes", "receive:ErrCorruptBlob")
+		case out.mentionsSizeLimit():
+			r.Note("reject_classes", "receive:too-large-error")
 		case of.Mut == "unknown-hash":
 			r.Note("reject_classes", "receive:unsupported-hash-error")
 		default:
@@ -512,7 +540,7 @@ func (s *session) rejectClass(of *offer, out outcome) {
 			return
 		}
 		r.Note("reject_classes", fmt.Sprintf("put:http-%d", out.status))
-		if (of.Mismatch || of.Mut == "unknown-hash" || of.Mut == "oversize") && !out.panicked {
+		if (of.Mismatch || of.Mut == "unknown-hash" || of.Mut == "oversize" || of.Mut == "ext-at-cap") && !out.panicked {
 			r.Eval(1)
 			if out.status/100 != 4 {
 				s.viol("wrong-reject-class/"+s.site(), "offer %s (%s %s) with an intact body must be refused with a 4xx, got HTTP %d", of.RefStr, of.Mut, of.Arg, out.status)
